@@ -3,5 +3,10 @@
 EXTENDS Ring
 AllStarts == 0..(2*H-1)
 OneStart == {0}
+\* for the big rings: start values from one ring-size below the wrap to one ring-size after it, horizon
+\* shortened accordingly (`Last <- ShortLast` in the cfg); the other start values are toured on the smaller rings
+ShortStarts == (H - NS - 1)..(H + 1)
+ShortStartsC == (H - NC - 1)..(H + 1)
+ShortLast == H + (IF NS > NC THEN NS ELSE NC) + 2
 \* hide nothing: the monitor state is a function of the concrete state whenever the protocol is intact
 =============================================================================
